@@ -83,7 +83,7 @@ def reduce_cases(draw, tier="quick", funcs=FUNCS, nplans=3, allow_blockwise=True
     if not present:
         mode = draw(st.sampled_from(["none", "superset"]))
     extra_pool = {
-        "int": [20, 21, -1], "negint": [100, -100], "bigint": [1, 2**41], "float": [99.5, -99.5], "str": ["y", "z", "A"],
+        "int": [20, 21, -1], "negint": [100, -100], "bigint": [1, 2**41], "float": [99.5, -99.5], "floatint": [6.0, 3.5], "str": ["y", "z", "A"],
     }[kind]  # fmt: skip
     if mode != "none":
         if mode == "exact":
@@ -97,6 +97,8 @@ def reduce_cases(draw, tier="quick", funcs=FUNCS, nplans=3, allow_blockwise=True
             k = draw(st.integers(1, len(present)))
             labels = list(draw(st.permutations(present))[:k]) + [extra_pool[0]]
         case["expected"] = {"labels": sorted(labels), "as": draw(st.sampled_from(["array", "list", "index"]))}
+        if kind == "floatint" and all(float(x).is_integer() for x in labels) and draw(st.booleans()):
+            case["expected"]["cast"] = "int"  # integer expected_groups for float labels
         if any(x not in present for x in labels):
             case["fill_value"] = draw(st.sampled_from(["nan", 0]))
             if func in ARG_FUNCS:
